@@ -396,10 +396,18 @@ Definition res (r : fs * option N) (w : world) : world * out :=
 
 Definition with_fs (w : world) (s : fs) : world := {| wfs := s; whs := whs w |}.
 
+(* the option validation of std::fs::OpenOptions (get_access_mode / get_creation_mode),
+   repeated at the top of the shim's OpenOptions::open *)
+Definition valid_open (r w a t c n : bool) : bool :=
+  (r || w || a)
+  && (w || a || negb (t || c || n))
+  && negb (a && t && negb n).
+
 (* OpenOptions::open; returns the new fs and the handle *)
 Definition open_file (s : fs) (p : path) (r w a t c n : bool) : fs * (hnd + N) :=
   let ex := file_exists s p in
-  if n && ex then (s, inr EEXIST)
+  if negb (valid_open r w a t c n) then (s, inr EINVAL)
+  else if n && ex then (s, inr EEXIST)
   else
     let created :=
       if ex then Some s
